@@ -37,7 +37,7 @@ func registry() *minify.M {
 	return m
 }
 
-var extType = map[string]string{"css": "text/css", "js": "application/javascript", "html": "text/html", "json": "application/json", "svg": "image/svg+xml", "xml": "text/xml", "htm": "text/html", "mjs": "application/javascript"}
+var extType = map[string]string{"css": "text/css", "js": "application/javascript", "html": "text/html", "json": "application/json", "svg": "image/svg+xml", "xml": "text/xml", "htm": "text/html", "mjs": "application/javascript", "xhtml": "application/xhtml+xml", "rss": "application/rss+xml", "webmanifest": "application/manifest+json"}
 
 func typeOf(name string, ext map[string]string) (string, bool) {
 	e := strings.TrimPrefix(path.Ext(name), ".")
@@ -288,6 +288,18 @@ func model(t clitree.Tree, sh shape, inputs []string, output string, stdin []byt
 			n = t[n.Link]
 		}
 		rt[p] = n
+	}
+	// a link whose target is a directory of the tree shows that directory's files under its own name
+	for p, n := range t {
+		if n.Link == "" {
+			continue
+		}
+		for q, m := range t {
+			if strings.HasPrefix(q, n.Link+"/") && m.Link == "" {
+				rt[p+strings.TrimPrefix(q, n.Link)] = m
+				delete(rt, p)
+			}
+		}
 	}
 	t = rt
 	o := parseFlags(sh.flags)
@@ -656,6 +668,15 @@ func cases(maxFiles int) []caseT {
 		caseT{clitree.Tree{".t.css": {Data: css}}, shape{"hidden top-level file→dir/", nil, "each", "out/"}, []string{".t.css"}, "out/", nil},
 		caseT{clitree.Tree{".hd/sub/w.css": {Data: css}, ".hd/v.js": {Data: js}}, shape{"hidden top-level dir -r -a→dir/", []string{"-r", "-a"}, "src", "out/"}, []string{".hd"}, "out/", nil},
 		caseT{clitree.Tree{".hd/sub/w.css": {Data: css}}, shape{"hidden top-level dir/ -r -a -s→dir/", []string{"-r", "-a", "-s"}, "src/", "out/"}, []string{".hd/"}, "out/", nil},
+	)
+	// the extensions of the documented table that map to a minifier through a media type pattern
+	for _, f := range [][2]string{{"p.xhtml", "<p> x  y </p>\n"}, {"feed.rss", "<rss> <channel> <title>t</title> </channel> </rss>\n"}, {"app.webmanifest", "{ \"name\" : \"n\" }\n"}, {"m.mjs", "var a = 1 ;\n"}, {"i.htm", "<p> x   y </p>\n"}} {
+		cs = append(cs, caseT{clitree.Tree{f[0]: {Data: []byte(f[1])}}, shape{"file of every mapped extension→new file", nil, "each", "out.min"}, []string{f[0]}, "out.min", nil})
+	}
+	// a symbolic link to a directory given as the input directory
+	cs = append(cs,
+		caseT{clitree.Tree{"d/a.js": {Data: js}, "d/b.js": {Data: []byte("var b = 2 ;\n")}, "linkd": {Link: "d"}}, shape{"link to dir -r→dir (no slash)", []string{"-r"}, "src", "out"}, []string{"linkd"}, "out", nil},
+		caseT{clitree.Tree{"d/a.js": {Data: js}, "d/sub/c.css": {Data: css}, "linkd": {Link: "d"}}, shape{"link to dir -r→dir/", []string{"-r"}, "src", "out/"}, []string{"linkd"}, "out/", nil},
 	)
 	return cs
 }
